@@ -10,7 +10,8 @@
     code). *)
 From Coq Require Import List NArith ZArith Lia.
 From PQ Require Import Base.Bytes Base.BitPack Enc.Rle Enc.RleProofs Enc.DeltaBP Enc.DeltaBPProofs.
-From PQ Require Import Dremel.Model File.Pipeline File.PipelineProofs File.SpecDecoder Thrift.Compact.
+From PQ Require Import Dremel.Model File.Pipeline File.PipelineProofs File.SpecDecoder File.SpecAgreement.
+From PQ Require Import Thrift.Compact Thrift.CompactProofs.
 Import ListNotations.
 Open Scope N_scope.
 
@@ -56,6 +57,22 @@ Proof.
   repeat split; try (apply Nat.eqb_eq; assumption); try (apply N.eqb_eq; assumption); assumption.
 Qed.
 
+(** The thrift compact layer (footer, page headers, page index): the
+    specification decoder inverts the encoder on every well-formed value tree:
+    any nesting, any field ids (short delta form and long form), short and
+    long list headers, booleans in field headers and as list elements. *)
+Theorem C02_thrift_roundtrip : forall v, CompactProofs.wf v ->
+  forall fuel ty rest, (sz v <= fuel)%nat -> code_ok ty v ->
+  dec_val fuel ty (encode v ++ rest) = Some (v, rest).
+Proof. exact dec_val_encode. Qed.
+
+(** The field ids and enum values the decoder takes from parquet.thrift are the
+    ones the Go code uses (regenerated from format/parquet.go on every run). *)
+Theorem C02_field_ids_agree_with_go : agreement = true.
+Proof. exact thrift_ids_agree_with_go. Qed.
+
+Print Assumptions C02_thrift_roundtrip.
+Print Assumptions C02_field_ids_agree_with_go.
 Print Assumptions C02_levels_decode.
 Print Assumptions C02_page_layer.
 Print Assumptions C02_check_chunk_sound.
@@ -65,6 +82,9 @@ Definition ex_header : tval :=
   TStruct [(1%Z, TInt T_I32 0%Z); (2%Z, TInt T_I32 42%Z); (3%Z, TInt T_I32 42%Z); (4%Z, TInt T_I32 (-559038737)%Z);
            (5%Z, TStruct [(1%Z, TInt T_I32 10%Z); (2%Z, TInt T_I32 0%Z); (3%Z, TInt T_I32 3%Z); (4%Z, TInt T_I32 3%Z)]);
            (20%Z, TList T_BINARY [TBin [1; 2; 3]; TBin []]); (21%Z, TBool true); (40%Z, TBool false)].
+
+Example C02_ex_thrift_wf : CompactProofs.wf ex_header.
+Proof. cbn. unfold in_sint, T_I16, T_I32, T_I64, T_BINARY, T_MAP. cbn. repeat split; try lia; auto. Qed.
 
 Example C02_ex_thrift_roundtrip : decode_struct (encode ex_header) = Some (ex_header, []).
 Proof. vm_compute. reflexivity. Qed.
